@@ -18,7 +18,7 @@ RULE = ("cases from rng(seed, 10, 0, i): pose kind = i mod 4, hostile operands (
         "manifold derivative vs AD (6/3/2 tangent directions), ambient derivative for R^n/SE(2); every 3rd case repeats everything after the returned matrices were scribbled on and the pose objects modified in place. distinct = fingerprint of operands; non-trivial = both operands have "
         "non-zero translation and (SE types) non-identity rotation.")
 REQ = ["eval:shape", "eval:compact-rows", "eval:manifold-derivative", "eval:ambient-derivative", "eval:boxplus-jacobian", "class:kind:se3", "class:kind:se2", "class:q:wneg", "class:q:wzero",
-       "class:a:nearpi_in", "class:after_inplace_modification"] + ["method:" + m for m in METHODS]
+       "class:a:nearpi_in", "class:after_inplace_modification", "class:far_from_origin_close_together"] + ["method:" + m for m in METHODS]
 PLAN = {
     "quick": {"cases": 4000, "soft_s": 70, "min_nontrivial": 1000, "require": REQ},
     "thorough": {"cases": 200000, "soft_s": 1300, "min_nontrivial": 50000, "require": REQ},
@@ -43,6 +43,13 @@ def run_case(ctx, i, rng):
     pb, lb = gen.pose(rng, k, maxexp)
     pt, _ = gen.pose(rng, kp, maxexp)
     labels |= la | lb
+    if rng.random() < 0.15:
+        # two poses far from the origin but close together: what depends on the difference only must stay accurate
+        nt0 = {"r2": 2, "r3": 3, "se2": 2, "se3": 3}[k]
+        shift = [float(rng.choice([-1.0, 1.0]) * 10.0 ** rng.uniform(5, 10)) for _ in range(nt0)]
+        pa = [sh + float(d) for sh, d in zip(shift, rng.normal(size=nt0) * 3.0)] + pa[nt0:]
+        pb = [sh + float(d) for sh, d in zip(shift, rng.normal(size=nt0) * 3.0)] + pb[nt0:]
+        ctx.count("class:far_from_origin_close_together")
     A, B, PT = M.mkpose(k, pa), M.mkpose(k, pb), M.mkpose(kp, pt)
     ctx.count("class:kind:" + k)
     for lab in labels:
@@ -129,11 +136,16 @@ def all_methods(ctx, k, kp, A, B, PT, extra_feats):
             ctx.check("boxplus-jacobian", False, {"kind": kx, "why": "shape"}, {"shape": JB.shape}, case)
             continue
         chained = J @ JB
-        tol = 1e-11 * s * (1.0 + np.abs(Jref).max())
+        s_m = s
+        if "ominus" in name:
+            # a (-) b depends on the positions through their difference only (and the implementation subtracts first)
+            ntm = {"r2": 2, "r3": 3, "se2": 2, "se3": 3}[k]
+            s_m = 1.0 + max(abs(x - y) for x, y in zip(a[:ntm], b[:ntm]))
+        tol = 1e-11 * s_m * (1.0 + np.abs(Jref).max())
         ctx.close("manifold-derivative", chained, Jref, tol, feats, {"scale": s}, case)
         if kx in ("r2", "r3", "se2") and k != "se3":
             _, Jamb = R.jac_ambient(f, x0)
-            ctx.close("ambient-derivative", J, Jamb[:rows], 1e-11 * s * (1.0 + np.abs(Jamb).max()), feats, {"scale": s}, case)
+            ctx.close("ambient-derivative", J, Jamb[:rows], 1e-11 * s_m * (1.0 + np.abs(Jamb).max()), feats, {"scale": s_m}, case)
     # jacobian_boxplus itself
     ctx.count("method:jacobian_boxplus")
     with np.errstate(all="ignore"):
